@@ -180,3 +180,81 @@ def run(tier="quick", seed=0):
     else:
         res.update(status="no-cex", lines=[])
     return res
+
+
+PIPE_BOUND = ("about 40 argument vectors of `zerv version` / `zerv flow` (sources none and stdin; overrides incl. --epoch 0, bumps, presets, custom schemas with "
+              "awkward literals, custom JSON): the object emitted with --output-format zerv is piped into `zerv version --source stdin` for semver and "
+              "pep440 and compared with the direct rendering; the emitted object is re-emitted through the pipe and compared byte for byte")
+
+PIPE_VECTORS = [
+    ["version"] + NONE + ["v1.2.3"],
+    ["version"] + NONE + ["1.2.3", "--epoch", "0"],
+    ["version"] + NONE + ["1.2.3", "--epoch", "2", "--post", "0", "--dev", "0"],
+    ["version"] + NONE + ["1.2.3-rc.1", "--bump-pre-release-num"],
+    ["version"] + NONE + ["1.2.3", "--pre-release-label", "beta", "--pre-release-num", "0"],
+    ["version"] + NONE + ["1.2.3", "--bump-major", "--bump-minor", "2", "--bump-patch", "0"],
+    ["version"] + NONE + ["1.2.3", "--distance", "3", "--dirty", "--bumped-branch", "féature/٣x \"q\"", "--bumped-commit-hash", "abcdef123456", "--schema", "standard-context"],
+    ["version"] + NONE + ["1.2.3", "--distance", "0", "--no-dirty", "--schema", "calver", "--bumped-timestamp", "1710511845"],
+    ["version"] + NONE + ["1.2.3", "--schema", "calver-base-prerelease-post-dev-context", "--bumped-timestamp", "0", "--post", "4"],
+    ["version"] + NONE + ["1!2.0rc1.post2.dev3+x.1", "--input-format", "pep440"],
+    ["version"] + NONE + ["1.2.3", "--custom", "{\"a\": {\"b\": [1, \"x\\ny\"]}, \"k\": \"v\"}", "--schema-ron", "(core:[var(Major),var(Minor),var(Patch)],extra_core:[var(custom(\"k\"))],build:[str(\"B.01\"),uint(7)])"],
+    ["version"] + NONE + ["1.2.3", "--schema-ron", "(core:[var(Major),var(Minor),var(Patch)],extra_core:[],build:[],precedence_order:[])", "--bump-major"],
+    ["version"] + NONE + ["1.2.3", "--core", "0=9", "--bump-core", "1"],
+    ["version"] + NONE + ["1.2.3", "--clean", "--bump-patch"],
+    ["version"] + NONE + ["1.2.3", "--no-bump-context", "--distance", "4", "--dirty"],
+    ["flow"] + NONE + ["1.2.3", "--distance", "2", "--bumped-branch", "feature/x"],
+    ["flow"] + NONE + ["1.2.3-beta.4", "--distance", "2", "--bumped-branch", "release/7", "--no-dirty"],
+    ["flow"] + NONE + ["1.2.3", "--bumped-branch", "develop", "--distance", "1", "--schema", "standard-base-prerelease-post"],
+]
+
+
+def run_pipe(tier="quick", seed=0):
+    """C12: "any final rendering … obtained by piping it into `zerv version --source stdin` equals the rendering produced directly"."""
+    import re
+    t0 = time.time()
+    res = {"family": "cli_pipe", "bound": PIPE_BOUND, "cases": 0}
+    ok, msg = rengine.build_zerv()
+    if not ok:
+        res.update(status="error", lines=["the zerv binary does not build from the working tree: " + msg[-400:]])
+        return res
+    zerv = rengine.ZERV
+    work = tempfile.mkdtemp(prefix="verif_pipe_")
+    classes = {}
+
+    def bad(cls, text):
+        classes.setdefault(cls, []).append(f"CEX cli_pipe class={cls} {text}")
+
+    mask = lambda b: re.sub(rb"\d{9,}", b"<ts>", b)   # the wall-clock dev timestamp of dirty states
+    try:
+        env = {k: v for k, v in os.environ.items() if not k.startswith("RUST_LOG") and not k.startswith("ZERV_")}
+        env.update(TZ="Pacific/Kiritimati", HOME=work, NO_COLOR="1")
+        for argv in PIPE_VECTORS:
+            show = " ".join(repr(a) for a in argv)
+            rc, obj, err = _run(zerv, argv + ["--output-format", "zerv"], None, work, env)
+            res["cases"] += 1
+            if rc != 0:
+                continue   # a rejected vector has nothing to pipe (the stream discipline is C13's family)
+            rc2, again, _ = _run(zerv, ["version", "--source", "stdin", "--output-format", "zerv"], obj, work, env)
+            if rc2 != 0:
+                bad("emitted-object-rejected", f"`zerv {show} --output-format zerv` emits an object that `zerv version --source stdin` rejects")
+                continue
+            if mask(again) != mask(obj):
+                bad("re-emission-differs", f"`zerv {show}`: the emitted object changes when piped through `zerv version --source stdin --output-format zerv`: "
+                                           f"{[l for l in obj.decode('utf-8', 'replace').splitlines() if l not in again.decode('utf-8', 'replace').splitlines()][:4]!r} vs "
+                                           f"{[l for l in again.decode('utf-8', 'replace').splitlines() if l not in obj.decode('utf-8', 'replace').splitlines()][:4]!r}")
+            for fmt in ("semver", "pep440"):
+                res["cases"] += 1
+                rd, direct, _ = _run(zerv, argv + ["--output-format", fmt], None, work, env)
+                rp, piped, _ = _run(zerv, ["version", "--source", "stdin", "--output-format", fmt], obj, work, env)
+                if rd != rp or mask(direct) != mask(piped):
+                    bad("pipe-rendering-differs", f"`zerv {show}` renders {fmt} as {direct.decode('utf-8', 'replace').strip()!r} (status {rd}) directly but "
+                                                  f"{piped.decode('utf-8', 'replace').strip()!r} (status {rp}) through the RON pipe")
+    finally:
+        shutil.rmtree(work, ignore_errors=True)
+    res["wall_s"] = round(time.time() - t0, 2)
+    if classes:
+        lines = [l for v in classes.values() for l in v]
+        res.update(status="cex", lines=lines[:5], classes={k: v[:5] for k, v in classes.items()})
+    else:
+        res.update(status="no-cex", lines=[])
+    return res
